@@ -50,7 +50,7 @@ RULE = ("(a) fmatch: 20..80 beads in an orthorhombic box, LAMMPS dump with "
         "gaussian noise of 5..40 % of the largest force, expected = the "
         "oracle's own least-squares solution over the natural-spline space "
         "(design matrix from own basis splines and gradients); counters "
-        "many_eq/* incl. N, N mod 4096 and tail equations per case; "
+        "(two or three adjacent end intervals: a single unsampled interval of a C2 spline is still determined by the others); many_eq/* incl. N, N mod 4096 and tail equations per case; "
         "family irregular-grid (sub-families periodic-dihedral / bond / angle "
         "/ nonbonded / mixed = periodic dihedral + bond and/or angle and/or "
         "pair, keys fmatch/irregular-grid/<sub>/...): ~70 % of the fit grids "
